@@ -179,6 +179,10 @@ def shapes(t, sd):
     # iff gating
     add({"type": U8, "bins": [["a", "array", 2, [[0, 9]]], ["b", "bin", [200]]], "iff": "field"}, "iff", ns=2)
     add({"type": ["u", 4], "iff": "field", "auto_bin_max": 4, "ignore": [["ig", [3]]]}, "iff", ns=2)
+    add({"type": U8, "bins": [["a", "array", 2, [[0, 9]]]], "ignore": [["ig", [3, [20, 21]]]], "illegal": [["il", [9, [30, 31]]]], "iff": "field"}, "iff_ignore_illegal", ns=2)
+    add({"type": U8, "bins": [["b", "bin", [[1, 4]]]], "illegal": [["il", [[100, 200]]]], "iff": "field"}, "iff_illegal", ns=2)
+    add({"type": U8, "bins": [["b", "bin", [[1, 4]]]], "ignore": [["ig", [[100, 200]], ], ["ig2", [7]]], "iff": "field"}, "iff_ignore", ns=2)
+    add({"type": ["s", 4], "ignore": [["ig", [-1]]], "illegal": [["il", [[-8, -7]]]], "iff": "field", "auto_bin_max": 3}, "iff_ignore_illegal_auto", ns=2)
     # enum coverpoints (samples enumerated)
     for ev in (0, 1, 5, 9, 200):
         items.append(dict(spec={"cps": [{"name": "cp", "type": ["enum", "E5"]}]}, nsamples=1, shape="enum", enum_samples=[ev]))
